@@ -5,8 +5,9 @@ From DustDDS Require Export Base.Machine Time.TimeModel Sched.WorkerModel.
 Open Scope Z_scope.
 
 (* observation of one op: the delays requested during the op (time of request, ns) and,
-   per writer, (number of OFFERED_DEADLINE_MISSED listener calls, total_count of the last) *)
-Record obs : Type := mkObs { o_delays : list (Z * Z); o_wsig : list (Z * Z); o_reply : Z }.
+   per writer / per reader, (number of OFFERED/REQUESTED_DEADLINE_MISSED listener calls during
+   the op, total_count of the last); the reply of a status query *)
+Record obs : Type := mkObs { o_delays : list (Z * Z); o_wsig : list (Z * Z); o_rsig : list (Z * Z); o_reply : Z }.
 
 Inductive C31_case : Type :=
 | CSim (interval_ns : Z) (ops : list (sop * obs))
@@ -32,6 +33,15 @@ Fixpoint wsigs (before after : list swriter) : list (Z * Z) :=
   | _, [] => []
   end.
 
+Definition rsig_of (before after : sreader) : Z * Z :=
+  let n := sr_rdm after - sr_rdm before in (n, if 0 <? n then sr_rdm after else 0).
+Fixpoint rsigs (before after : list sreader) : list (Z * Z) :=
+  match before, after with
+  | b :: bs, a :: as_ => rsig_of b a :: rsigs bs as_
+  | [], a :: as_ => (0, 0) :: rsigs [] as_
+  | _, [] => []
+  end.
+
 Fixpoint run_sim (s : sstate) (ops : list (sop * obs)) : bool * sstate :=
   match ops with
   | [] => (true, s)
@@ -39,6 +49,7 @@ Fixpoint run_sim (s : sstate) (ops : list (sop * obs)) : bool * sstate :=
       let '(s1, ds, rep) := step s o (length (o_delays ob)) in
       let ok := list_eqb delay_eqb ds (o_delays ob) &&
                 list_eqb pair_eqb (wsigs (ss_writers s) (ss_writers s1)) (o_wsig ob) &&
+                list_eqb pair_eqb (rsigs (ss_readers s) (ss_readers s1)) (o_rsig ob) &&
                 (rep =? o_reply ob) in
       let '(okr, s2) := run_sim s1 r in (ok && okr, s2)
   end.
